@@ -33,6 +33,11 @@ def extras(rng, b):
             t = C10.rand_tree(rng, rng.randint(1, 6))
             src = "(" + " ".join(C10.render(rng, t)) + ")"
             b.items.append(("attr", k, src, [(src, "raw")], "expression"))
+    # quoted strings that span lines: their line breaks are content, whatever newlinechar is
+    for k in ("data", "template", "header", "title", "connection"):
+        if k in props and rng.random() < .15 and not any(len(it) > 1 and it[1] == k for it in b.items):
+            v = rng.choice(["SELECT a\n  FROM t", "two\nlines\nthree", "x\n"])
+            b.items.append(("attr", k, v, [(v, "qstr")], "string"))
     for k in ("text", "expression", "filter"):
         if k in props and rng.random() < .35 and not any(len(it) > 1 and it[1] == k for it in b.items):
             body = rng.choice(['a\\\\"b', 'say \\"hi\\"', "it\\'s", 'x\\\\\\"y', "plain text", 'tab\\there'])
